@@ -3,6 +3,8 @@ r"""Replace `\u{XX}` or `\u{XXXX}` escape sequences with Unicode code points."""
 from .exceptions import PestGrammarSyntaxError
 from .tokens import Token
 
+HEX_DIGITS = frozenset("0123456789abcdefABCDEF")
+
 
 def unescape_string(value: str, token: Token, quote: str = '"') -> str:
     """Return `value` with escape sequences replaced with Unicode code points."""
@@ -47,8 +49,13 @@ def _decode_escape_sequence(  # noqa: PLR0911
     if ch == "t":
         return "\t", index
     if ch == "x":
-        # TODO: handle incomplete \x escape sequence
-        return chr(int(value[index + 1 : index + 3], 16)), index + 3
+        digits = value[index + 1 : index + 3]
+        if len(digits) != 2 or any(digit not in HEX_DIGITS for digit in digits):
+            raise PestGrammarSyntaxError(
+                "expected two hexadecimal digits after \\x", token=token
+            )
+        # Return the index of the last character of the escape sequence.
+        return chr(int(digits, 16)), index + 2
     if ch == "u":
         codepoint, index = _decode_hex_char(value, index, token)
         return chr(codepoint), index
@@ -82,8 +89,7 @@ def _decode_hex_char(value: str, index: int, token: Token) -> tuple[int, int]:
         )
 
     codepoint = _parse_hex_digits(value[index : index + hex_digit_length], token)
-    index += hex_digit_length
-    index += 1  # move past '}'
+    index += hex_digit_length  # the index of '}', the last character of the escape
     return codepoint, index
 
 
